@@ -31,6 +31,33 @@ def build(name="SH"):
     m.add("S7", Type("SEQUENCE", comps=[Comp("p", Type("INTEGER", tag=("A", 30, "IMPLICIT"))), Comp("q", Type("INTEGER", tag=("P", 31, "EXPLICIT"))),
                                         Comp("r", Type("BOOLEAN", tag=("C", 16383, None)), optional=True),
                                         Comp("s", Type("BOOLEAN", tag=("C", 16384, None)), optional=True)]))
+    # integers: semi-constrained with a negative / large lower bound, upper-bounded only, ranges that straddle the 1/2/4-octet
+    # OER widths on one side only
+    rng_ = lambda lo, hi, ext=False: Constraint([(("range", lo, hi), ext, None)])
+    m.add("I1", Type("INTEGER", value_c=rng_(-10, MAX)))
+    m.add("I2", Type("INTEGER", value_c=rng_(-10, MAX, True)))
+    m.add("I3", Type("INTEGER", value_c=rng_(70000, MAX)))
+    m.add("I4", Type("INTEGER", value_c=rng_(-100000, 100)))
+    m.add("I5", Type("INTEGER", value_c=rng_(-129, 100)))
+    m.add("I6", Type("INTEGER", value_c=rng_(-10, 32768)))
+    m.add("I7", Type("INTEGER", value_c=rng_(-2147483649, 5)))
+    # sizes whose upper bound is 64K or more while the range is narrow (unconstrained length form, X.691 11.9)
+    m.add("Z1", Type("OCTET STRING", size_c=rng_(65530, 65540)))
+    m.add("Z2", Type("IA5String", size_c=rng_(1, 65536)))
+    m.add("Z3", Type("OCTET STRING", size_c=Constraint([(("val", 70000), False, None)])))
+    m.add("Z4", Type("SEQUENCE OF", elem=Type("BOOLEAN"), size_c=rng_(65535, 65537)))
+    # exactly 8 and 16 extension additions (the OER presence bitmap has no unused bits)
+    for k in (8, 16):
+        m.add("X%d" % k, Type("SEQUENCE", comps=[Comp("a%d" % k, Type("INTEGER"))],
+                              ext=[Comp("e%d-%d" % (k, i), Type("INTEGER"), optional=True) for i in range(1, k + 1)]))
+    # a SET with DEFAULT members kept inline (INTEGER, BOOLEAN) next to an OPTIONAL one
+    m.add("D1", Type("SET", comps=[Comp("user", Type("IA5String")), Comp("retries", Type("INTEGER"), has_default=True, default=0),
+                                   Comp("quota", Type("INTEGER"), has_default=True, default=10),
+                                   Comp("flag", Type("BOOLEAN"), has_default=True, default=False),
+                                   Comp("note", Type("UTF8String"), optional=True)]))
+    # an extensible ENUMERATED of which every item is exercised
+    m.add("En", Type("ENUMERATED", items=[("red", 0), ("green", 1), ("blue", 2)], ext_items=[("amber", 3), ("violet", 4)]))
+    m.add("En2", Type("SEQUENCE", comps=[Comp("n", Type("INTEGER", value_c=rng_(0, 7))), Comp("c", Type("REF", ref="En"))]))
     for t in m.types.values():
         _gen._set_module(t, m)
     m.finalize()
@@ -67,6 +94,8 @@ def build2(name="SH2"):
     m.add("T6", Type("SEQUENCE", comps=[Comp("a6", Type("OCTET STRING", tag=("C", 1, "EXPLICIT"))), Comp("b6", Type("BOOLEAN"))]))
     m.add("T7", Type("SEQUENCE", comps=[Comp("x7", Type("IA5String", tag=("C", 0, "EXPLICIT")))], tag=("A", 5, "EXPLICIT")))
     m.add("T8", Type("OCTET STRING", tag=("P", 2, "EXPLICIT")))
+    m.add("T9", Type("ENUMERATED", items=[("red9", 0), ("green9", 1), ("blue9", 2)], ext_items=[("amber9", 3), ("violet9", 4)]))
+    m.add("T10", Type("SEQUENCE", comps=[Comp("n10", Type("INTEGER", value_c=Constraint([(("range", 0, 7), False, None)]))), Comp("c10", Type("REF", ref="T9"))]))
     for t in m.types.values():
         _gen._set_module(t, m)
     m.finalize()
@@ -105,6 +134,10 @@ def values2(mod, name, rng, quick):
                 out.append({"x7": "".join(chr(0x61 + (i % 26)) for i in range(n))})
             else:
                 out.append(bytes(n))
+    elif name == "T9":
+        out = [0, 1, 2, 3, 4]
+    elif name == "T10":
+        out = [{"n10": 7, "c10": v_} for v_ in (0, 2, 3, 4)]
     return out
 
 
@@ -172,6 +205,12 @@ def build4(name="EQ"):
     m.add("E6", Type("SEQUENCE OF", elem=Type("REF", ref="E2")))
     m.add("E7", Type("SEQUENCE", comps=[Comp("bs7", Type("BIT STRING")), Comp("in7", Type("REF", ref="E2")), Comp("so7", Type("REF", ref="E3"))]))
     # character string DEFAULTs (the generated setter allocates a copy), in the root and among the additions
+    m.add("E9", Type("SET OF", elem=Type("INTEGER", value_c=Constraint([(("range", 0, 7), False, None)]))))
+    m.add("E10", Type("SET OF", elem=Type("SEQUENCE", comps=[Comp("p10", Type("INTEGER", value_c=Constraint([(("range", 0, 3), False, None)]))),
+                                                             Comp("q10", Type("BOOLEAN"))])))
+    m.add("E11", Type("SEQUENCE", comps=[Comp("q11", Type("IA5String"), has_default=True, default='say "hi"'),
+                                         Comp("r11", Type("VisibleString"), has_default=True, default='"'),
+                                         Comp("n11", Type("INTEGER"))]))
     m.add("E8", Type("SEQUENCE", comps=[Comp("s8", Type("IA5String"), has_default=True, default="hello"),
                                         Comp("u8", Type("UTF8String"), has_default=True, default=""),
                                         Comp("n8", Type("INTEGER")),
@@ -205,6 +244,12 @@ def values4(mod, name, rng, quick):
         out = [[], EQ_INTS[5:9], EQ_INTS[-6:]]
     elif name == "E7":
         out = [{"bs7": (b"\xa8", 5), "in7": -128, "so7": [2, 1]}, {"bs7": (b"\x80", 1), "in7": -32768, "so7": [-128, -129, 0]}]
+    elif name == "E9":
+        out = [[1, 4, 6], [6, 4, 1], [7, 0, 3, 5], [2, 2, 1], [0, 7], []]
+    elif name == "E10":
+        out = [[{"p10": 1, "q10": False}, {"p10": 1, "q10": True}, {"p10": 0, "q10": True}], [{"p10": 3, "q10": True}, {"p10": 2, "q10": True}], []]
+    elif name == "E11":
+        out = [{"n11": 1}, {"q11": 'say "hi"', "n11": 2}, {"r11": '"', "n11": 3}, {"q11": 'say "hi', "r11": '""', "n11": 4}, {"q11": "x", "r11": "y", "n11": 5}]
     elif name == "E8":
         out = [{"n8": 1}, {"s8": "hello", "n8": 2}, {"s8": "other", "u8": "x", "n8": 3}, {"n8": 4, "v8": "v", "x8": "y"}, {"n8": 5, "x8": "ext"}]
     return out
@@ -322,4 +367,35 @@ def values(mod, name, rng, quick):
         out += [(c.name, None) for c in t.comps]
     elif name == "S7":
         out += [{"p": 1, "q": -1}, {"p": 0, "q": 0, "r": True}, {"p": 300, "q": -300, "s": False}, {"p": 1, "q": 2, "r": False, "s": True}]
+    elif name in ("I1", "I2"):
+        out += [-10, -9, -1, 0, 1, 117, 118, 245, 246, 65525, 65526, 1 << 40]
+    elif name == "I3":
+        out += [70000, 70001, 70255, 70256, 135535, 135536, 1 << 40]
+    elif name == "I4":
+        out += [-100000, -32769, -32768, -129, -128, 0, 100]
+    elif name == "I5":
+        out += [-129, -128, 0, 100]
+    elif name == "I6":
+        out += [-10, 0, 127, 128, 32767, 32768]
+    elif name == "I7":
+        out += [-2147483649, -2147483648, -1, 5]
+    elif name == "Z1":
+        out += [bytes((i * 3) & 0xff for i in range(n)) for n in (65530, 65535, 65536, 65540)]
+    elif name == "Z2":
+        out += ["".join(chr(0x41 + (i % 26)) for i in range(n)) for n in ((1, 16384, 65536) if quick else (1, 2, 127, 128, 16383, 16384, 65535, 65536))]
+    elif name == "Z3":
+        out += [bytes((i * 11) & 0xff for i in range(70000))]
+    elif name == "Z4":
+        out += [[bool(i % 3) for i in range(n)] for n in (65535, 65536, 65537)]
+    elif name in ("X8", "X16"):
+        k = int(name[1:])
+        out += [{"a%d" % k: 7}, {"a%d" % k: 7, "e%d-1" % k: 1, "e%d-%d" % (k, k): k}, {"a%d" % k: 1, "e%d-%d" % (k, k): -1},
+                dict([("a%d" % k, 0)] + [("e%d-%d" % (k, i), i) for i in range(1, k + 1)]), {"a%d" % k: 2, "e%d-%d" % (k, k // 2): 5}]
+    elif name == "D1":
+        out += [{"user": "bob"}, {"user": "bob", "retries": 3}, {"user": "al", "quota": 11, "flag": True}, {"user": "x", "note": "n"},
+                {"user": "y", "retries": 0, "quota": 10, "flag": False}, {"user": "z", "retries": 1, "quota": 2, "flag": True, "note": ""}]
+    elif name == "En":
+        out += [0, 1, 2, 3, 4]
+    elif name == "En2":
+        out += [{"n": 7, "c": v_} for v_ in (0, 2, 3, 4)]
     return out
